@@ -88,6 +88,13 @@ def main(argv=None):
         elif not prop['closed']:
             proof_problem = 'Print Assumptions is not closed for Properties/%s.v: %r' % (pid, prop['assumptions'])
 
+        chk = None
+        if a.tier == 'thorough' and prop['ok'] and not a.replay:
+            chk = common.coqchk_property(pid, wd)
+            if not chk['ok']:
+                proof_ok = False
+                proof_problem = proof_problem or ('coqchk does not accept Properties/%s.v and its dependencies without axioms: %r %s'
+                                                  % (pid, chk['summary'], chk['log']))
         ctx = Ctx(pid, a.tier, a.seed, wd, proof_ok)
         if a.replay:
             return replay(mod, ctx, a.replay)
@@ -187,6 +194,8 @@ def main(argv=None):
             known_findings_hit=sorted(known_hit),
             notes=res.notes,
         )
+        if chk is not None:
+            cov['coqchk'] = dict(cmd=chk['cmd'], accepted=chk['ok'], wall_s=chk['wall_s'], context_summary=chk['summary'])
         cov.update(res.extra)
         ev = dict(property_id=pid, tier=a.tier, seed=a.seed, level=level, coverage=cov,
                   assumptions=list(getattr(mod, 'ASSUMPTIONS', [])), wall_s=round(wall, 2), violations=violations)
